@@ -571,12 +571,42 @@ class SymSeq:
         return len(self.items())
 
     def startswith(self, prefix):
+        if isinstance(prefix, tuple):
+            return any_of_syms([self.startswith(p) for p in prefix])
         n = len(prefix)
         return n <= len(self) and (n == 0 or SymBytes(self.items()[:n]) == prefix)
 
     def endswith(self, suffix):
+        if isinstance(suffix, tuple):
+            return any_of_syms([self.endswith(p) for p in suffix])
         n = len(suffix)
         return n <= len(self) and (n == 0 or SymBytes(self.items()[len(self) - n :]) == suffix)
+
+    def _strip(self, chars, left, right):
+        chars = bytes(range(9, 14)) + b" " if chars is None else bytes(chars)
+        items = list(self.items())
+
+        def member(x):
+            if isinstance(x, int):
+                return x in chars
+            return _t(any_of_syms([x == ch for ch in chars]))
+
+        if right:
+            while items and member(items[-1]):
+                items.pop()
+        if left:
+            while items and member(items[0]):
+                items.pop(0)
+        return SymBytes(items).norm() if isinstance(self, SymBytes) else type(self)(items)
+
+    def rstrip(self, chars=None):
+        return self._strip(chars, False, True)
+
+    def lstrip(self, chars=None):
+        return self._strip(chars, True, False)
+
+    def strip(self, chars=None):
+        return self._strip(chars, True, True)
 
     def removeprefix(self, prefix):
         n = len(prefix)
@@ -1230,6 +1260,20 @@ def sym_truediv(a, b):
 
 def _t(x):
     return x if isinstance(x, bool) else bool(x)
+
+
+def any_of_syms(conds):
+    """disjunction of bool | SymBool without forking"""
+    ts = []
+    for q in conds:
+        if isinstance(q, bool):
+            if q:
+                return True
+        else:
+            ts.append(q.t)
+    if not ts:
+        return False
+    return mkbool(z3.Or(*ts))
 
 
 def _in(x, lo, hi):
